@@ -61,6 +61,11 @@ def call_op(sg, op, a, T, variant=0):
     """The public call for a catalogue operation.  variant selects among equivalent public forms
     (operator / function / method) so that every form is exercised."""
     x = T[0]
+    if variant == 2:
+        r = call_kw(sg, op, a, T)
+        if r is not NotImplemented:
+            return r
+        variant = 1
     if op == "add":
         return (x + T[1]) if variant == 0 else sg.add(x, T[1])
     if op == "sub":
@@ -143,6 +148,45 @@ def call_op(sg, op, a, T, variant=0):
     raise AssertionError("unknown op " + op)
 
 
+def call_kw(sg, op, a, T):
+    """keyword-argument spellings of the documented signatures (argument types as documented), and the module-level
+    function where variant 1 uses the method (or the reverse)"""
+    x = T[0]
+    as_list = lambda d: d      # noqa: E731  (lists in place of the documented tuples are not promised: not used)
+    if op in ("sum", "mean"):
+        return getattr(sg, op)(x, dim=as_list(dims_arg(a["dims"])), keepdims=a["keep"])
+    if op in ("max", "min"):
+        d = dims_arg(a["dims"])
+        return getattr(x, op)(dim=d, keepdims=a["keep"])
+    if op == "squeeze":
+        return x.squeeze(dim=as_list(dims_arg(a["dims"])))
+    if op == "unsqueeze":
+        return sg.unsqueeze(x, dim=dims_arg(a["dims"]))
+    if op == "reshape":
+        return x.reshape(shape=tuple(a["shape"]))
+    if op == "flatten":
+        return x.flatten(start_dim=a["sd"], end_dim=a["ed"])
+    if op == "movedim":
+        return sg.movedim(x, source=a["a"], destination=a["b"])
+    if op == "transpose":
+        return x.transpose(dim0=a["a"], dim1=a["b"])
+    if op == "unfold":
+        return x.unfold(dimension=a["dim"], size=a["size"], step=a["step"])
+    if op == "concat":
+        return sg.concat(x=list(T), dim=a["dim"])
+    if op == "stack":
+        return sg.stack(x=list(T), dim=a["dim"])
+    if op == "unbind":
+        return sg.unbind(x, dim=a["dim"])[a["t"] - 1]
+    if op == "powi":
+        return sg.pow(x, n=float(a["n"]))
+    if op == "addmm":
+        return sg.addmm(x1=x, x2=T[1], x3=T[2])
+    if op == "matmul":
+        return x.matmul(T[1]) if hasattr(x, "matmul") else NotImplemented
+    return NotImplemented
+
+
 # ---- real functions named by the specification (interpreted from their textbook definition) ----
 def rfun(fn, par):
     if fn == "exp":
@@ -205,7 +249,7 @@ def has_layout(shape):
 
 
 class CatalogReplayer:
-    variants = (0, 1)      # public call forms exercised per case
+    variants = (0, 1, 2)   # public call forms exercised per case: operator / method, function, keyword and list spellings
     layout = "C"           # memory layout of operand / gradient arrays: "C" row-major, "F" column-major (same values)
 
     def __init__(self, sg, caller=call_op):
@@ -297,11 +341,43 @@ class CatalogReplayer:
         .grad; the call leaves the gradient mode as it found it."""
         sg = self.sg
         div = []
-        if case["pol"] != "MUST" or not case.get("oshape") and case["kind"] == "none":
-            return div
         op, K = case["op"], len(case["shapes"])
         dtype = np.dtype(np.float32)
         import itertools
+        if case["pol"] == "UNDEF":
+            # error path: a call that is rejected leaves the gradient modes as it found them, with tracking on and inside
+            # no_grad / retain_grads blocks of the caller
+            tm = repo.tensor_module()
+            for gm in (True, False):
+                T = self.operands(case, dtype, [True] * K)
+                before = (tm.gradient__, tm.retain_grads__)
+                try:
+                    with repo.quiet(), np.errstate(all="ignore"):
+                        if gm:
+                            with sg.retain_grads():
+                                inside = (tm.gradient__, tm.retain_grads__)
+                                try:
+                                    self.caller(sg, op, case["a"], T, 0)
+                                except Exception:  # noqa: BLE001
+                                    pass
+                                after_in = (tm.gradient__, tm.retain_grads__)
+                        else:
+                            with sg.no_grad():
+                                inside = (tm.gradient__, tm.retain_grads__)
+                                try:
+                                    self.caller(sg, op, case["a"], T, 0)
+                                except Exception:  # noqa: BLE001
+                                    pass
+                                after_in = (tm.gradient__, tm.retain_grads__)
+                finally:
+                    after = (tm.gradient__, tm.retain_grads__)
+                    tm.gradient__, tm.retain_grads__ = before
+                if after_in != inside or after != before:
+                    div.append(("flags", "%s:error-path:mode-changed" % op, "a rejected call of %s%s left (gradient mode, retain-all mode) = %s inside the caller's block (was %s) and %s after it (was %s)" % (
+                        op, case["a"], after_in, inside, after, before)))
+            return div
+        if case["pol"] != "MUST" or not case.get("oshape") and case["kind"] == "none":
+            return div
         for rg in itertools.product((False, True), repeat=K):
             for gm in (True, False):
                 T = self.operands(case, dtype, list(rg))
